@@ -46,7 +46,7 @@ def run(ctx):
         if not uses_only_common(p) or not uses_only_common(e):
             skipped += 1
             continue
-        f = gen_prog.random_flags(r, 0.2, exclude=FLAG["ENABLE_GC"] | FLAG["DISABLE_OP"])
+        f = runlib.pick_flags(r, tag, 0.2, exclude=FLAG["ENABLE_GC"] | FLAG["DISABLE_OP"])
         m = r.choice([0, 0, 11000000000, r.randrange(1, 10 ** 6)])
         lines.append((run_line(p, e, f=f, m=m, d="rt"), run_line(p, e, f=f, m=m, d="chia")))
     ctx.dist["filtered_out"] = skipped
